@@ -472,3 +472,7 @@ func Mul64(a, b uint64) (hi, lo uint64) {
 	lo = a * b
 	return
 }
+
+// Concretize returns x; under the engine the path forks over the feasible
+// values of x so that the result is a constant (loops over it cost no queries).
+func Concretize(x uint64) uint64 { return x }
